@@ -19,7 +19,7 @@ import (
 func init() {
 	Register(&Monitor{
 		ID: "C19",
-		Rule: "per generated document: target types from a hand-written catalogue (every supported kind, pointer depth 0-3, nested structs, slices of scalars / structs / pointers, untagged fields, unexported tagged fields, unsupported kinds) and from reflect.StructOf compositions of exported tagged fields, tag expressions of all four result types and of wrong shapes, namespace/variable bindings, slice targets with pre-existing elements; " +
+		Rule: "per generated document: target types from a hand-written catalogue (every supported kind, pointer depth 0-3, nested structs, slices of scalars / structs / pointers, untagged fields, tagged pointer fields that already point to recognisable values before the call (which must stay untouched), unexported tagged fields, unsupported kinds) and from reflect.StructOf compositions of exported tagged fields, tag expressions of all four result types and of wrong shapes, namespace/variable bindings, slice targets with pre-existing elements; " +
 			"oracle: the expected value of every tagged field is computed from a separate xsel.Exec of the tag on the same node (String()/Bool()/Number() converted with Go's conversion to the field type, slice element i from node i in result order, struct fields recursively, pointers non-nil and not aliasing one another), untagged fields must keep their sentinels, targets that cannot be filled and results of the wrong shape must return an error, and no call may panic. distinct_nontrivial = distinct (target type, outcome class) pairs with at least one field filled from a non-empty result",
 		Assumptions: []string{"numbers that do not fit the target integer type (or NaN) are not judged: Go's float-to-int conversion is implementation-defined there", "error texts are not compared, only error-ness", "a top-level slice target with pre-existing elements may keep them as a prefix or drop them; the new elements must be the tail in order"},
 		NCases:      func(tier string) int { return map[string]int{"quick": 900, "thorough": 30000}[tier] },
@@ -525,6 +525,12 @@ func c19Case(r *evid.Run, tier string, idx int, g *rng.R) {
 			// target: pointer chain of depth 1..3 to a pre-filled struct
 			target := reflect.New(t)
 			prefill(target.Elem())
+			// half of the targets also arrive with their tagged pointer fields already pointing somewhere:
+			// pointer fields are freshly allocated, the caller's old pointees are never written through
+			var presets []ptrPreset
+			if g.Bool() {
+				presets = presetPointers(target.Elem(), "target")
+			}
 			init := reflect.New(t).Elem()
 			init.Set(target.Elem())
 			arg := target
@@ -565,6 +571,13 @@ func c19Case(r *evid.Run, tier string, idx int, g *rng.R) {
 			if !nanEqual(got, wantAddr.Elem()) {
 				viol("value", fmt.Sprintf("Unmarshal into %s from %s: got %s, expected %s", tname, node.Path(), render(got), render(wantAddr.Elem())))
 				continue
+			}
+			for _, ps := range presets {
+				r.Count("preset_pointees_checked", 1)
+				if !nanEqual(ps.pointee.Elem(), ps.snapshot) {
+					viol("pointer-written-through", fmt.Sprintf("Unmarshal into %s from %s: the value the field %s pointed to before the call was changed from %s to %s (pointer fields must be freshly allocated)", tname, node.Path(), ps.path, render(ps.snapshot), render(ps.pointee.Elem())))
+					break
+				}
 			}
 			if msg := pointersDistinct(got, map[uintptr]string{}, "target"); msg != "" {
 				viol("pointer-aliasing", fmt.Sprintf("Unmarshal into %s from %s: %s", tname, node.Path(), msg))
@@ -829,4 +842,53 @@ func nanEqual(a, b reflect.Value) bool {
 		return reflect.DeepEqual(a.Interface(), b.Interface())
 	}
 	return true
+}
+
+// ptrPreset records what a tagged pointer field pointed to before Unmarshal.
+type ptrPreset struct {
+	path     string
+	pointee  reflect.Value // the old pointer
+	snapshot reflect.Value // copy of the old pointee
+}
+
+// presetPointers makes every exported tagged pointer field of the struct v point to a fresh,
+// recognisable pointee (through the whole pointer chain) and records them.
+func presetPointers(v reflect.Value, path string) []ptrPreset {
+	var out []ptrPreset
+	t := v.Type()
+	for i := 0; i < t.NumField(); i++ {
+		f := t.Field(i)
+		if f.Tag.Get("xsel") == "" || !f.IsExported() || f.Type.Kind() != reflect.Pointer {
+			continue
+		}
+		fv := v.Field(i)
+		var mk func(pt reflect.Type) reflect.Value
+		mk = func(pt reflect.Type) reflect.Value {
+			p := reflect.New(pt.Elem())
+			switch pt.Elem().Kind() {
+			case reflect.Pointer:
+				p.Elem().Set(mk(pt.Elem()))
+			case reflect.String:
+				p.Elem().SetString("old-pointee")
+			case reflect.Int, reflect.Int8, reflect.Int16, reflect.Int32, reflect.Int64:
+				p.Elem().SetInt(-99)
+			case reflect.Uint, reflect.Uint8, reflect.Uint16, reflect.Uint32, reflect.Uint64:
+				p.Elem().SetUint(99)
+			case reflect.Float32, reflect.Float64:
+				p.Elem().SetFloat(-9.5)
+			}
+			return p
+		}
+		p := mk(f.Type)
+		fv.Set(p)
+		// record every level of the chain
+		cur := p
+		for lvl := 0; cur.Kind() == reflect.Pointer && !cur.IsNil(); lvl++ {
+			snap := reflect.New(cur.Type().Elem()).Elem()
+			snap.Set(cur.Elem())
+			out = append(out, ptrPreset{fmt.Sprintf("%s.%s(level %d)", path, f.Name, lvl), cur, snap})
+			cur = cur.Elem()
+		}
+	}
+	return out
 }
